@@ -79,6 +79,9 @@ struct Cl {
     failed: Option<String>,
     done: bool,
     last_sent: Vec<u8>,
+    /// positions (in the interleaving) of this client's first and last step: two transfers overlap in time iff these intervals intersect
+    first_pos: Option<usize>,
+    last_pos: usize,
 }
 
 impl Cl {
@@ -178,7 +181,10 @@ impl Cl {
         }
     }
     fn abort(&mut self) {
-        self.c.to_peer(&rc::error(0, "abort"));
+        // only a transfer that has been opened and not completed can still have an open port
+        if !self.done && self.c.peer.is_some() {
+            self.c.to_peer(&rc::error(0, "abort"));
+        }
     }
 }
 
@@ -219,7 +225,8 @@ fn run_one(srv: &Srv, cfg: &SrvCfg, scripts: &[Script], same_file: bool, order: 
                 let _ = std::fs::write(&p, &body);
             }
         }
-        cls.push(Cl { script: *s, c: Client::new(srv.addr), name, body, step: 0, got: vec![], failed: None, done: false, last_sent: vec![] });
+        let cl = Client::new(srv.addr);
+        cls.push(Cl { script: *s, c: cl, name, body, step: 0, got: vec![], failed: None, done: false, last_sent: vec![], first_pos: None, last_pos: 0 });
     }
     let mut intruder_sock: Option<Client> = None;
     let mut intruder_reply: Option<Vec<u8>> = None;
@@ -259,6 +266,12 @@ fn run_one(srv: &Srv, cfg: &SrvCfg, scripts: &[Script], same_file: bool, order: 
         if overlapped && i + 1 < order.len() && order[i + 1] != a {
             // both datagrams are on their way before either reply is awaited
             let b = order[i + 1];
+            for (x, ps) in [(a, pos), (b, pos + 1)] {
+                if cls[x].first_pos.is_none() {
+                    cls[x].first_pos = Some(ps);
+                }
+                cls[x].last_pos = ps;
+            }
             cls[a].send_step();
             cls[b].send_step();
             cls[a].finish_step();
@@ -266,6 +279,10 @@ fn run_one(srv: &Srv, cfg: &SrvCfg, scripts: &[Script], same_file: bool, order: 
             i += 2;
             pos += 2;
         } else {
+            if cls[a].first_pos.is_none() {
+                cls[a].first_pos = Some(pos);
+            }
+            cls[a].last_pos = pos;
             cls[a].send_step();
             cls[a].finish_step();
             i += 1;
@@ -315,7 +332,7 @@ fn run_one(srv: &Srv, cfg: &SrvCfg, scripts: &[Script], same_file: bool, order: 
     // oracle
     viol.extend(late_viol);
     let listen_port = srv.addr.port();
-    let mut ports: Vec<u16> = vec![];
+    let mut ports: Vec<(u16, usize, usize)> = vec![];
     for (i, c) in cls.iter_mut().enumerate() {
         if let Some(f) = &c.failed {
             viol.push(("script-failed".into(), format!("client {i} ({}): {f}", c.script.name())));
@@ -341,15 +358,19 @@ fn run_one(srv: &Srv, cfg: &SrvCfg, scripts: &[Script], same_file: bool, order: 
             if srcs.len() != 1 || srcs.contains(&listen_port) {
                 viol.push(("multi-port-source".into(), format!("client {i}: datagrams came from ports {:?} (expected one ephemeral port, not {listen_port})", srcs)));
             }
-            ports.extend(srcs.iter());
+            ports.extend(srcs.iter().map(|p| (*p, c.first_pos.unwrap_or(0), c.last_pos)));
         }
     }
     if !cfg.single {
-        let mut p = ports.clone();
-        p.sort();
-        p.dedup();
-        if p.len() != ports.len() {
-            viol.push(("multi-port-shared".into(), format!("two transfers were served from the same port: {:?}", ports)));
+        // transfers that are open at the same time are served from different ports (a port may be re-used later)
+        for x in 0..ports.len() {
+            for y in x + 1..ports.len() {
+                let (pa, fa, la) = ports[x];
+                let (pb, fb, lb) = ports[y];
+                if pa == pb && fa <= lb && fb <= la {
+                    viol.push(("multi-port-shared".into(), format!("two transfers open at the same time were served from the same port {pa}")));
+                }
+            }
         }
     }
     if let Some(it) = intr {
